@@ -415,11 +415,74 @@ def family_cse(tier):
     d1, d2 = sub(x, y), sub(x, u)
     out.append(mk("poly-diff-squares", [mul(pw(d1, 2), c), add(pw(d1, 2), pw(d2, 2)), mul(d1, d2)]))
     out.append(mk("poly-diff-cubes", [add(pw(d1, 3), pw(d2, 2)), mul(pw(d1, 2), d2)]))
+    # chains of temporaries that are read ONLY by other temporaries (never directly by an output): t0 = x*y is read by
+    # sin/cos only, those by exp/tanh only, ... - liveness / ordering mistakes among the temporaries themselves
+    t0 = mul(x, y)
+    a1, a2 = fn("sin", t0), fn("cos", t0)
+    b1, b2 = fn("exp", mul(C(1, 2), a1)), fn("tanh", add(a1, a2))
+    b3 = fn("exp", mul(C(1, 4), a2))
+    out.append(mk("chain3", [add(b1, b2), mul(b1, b3), sub(b2, mul(u, b3))]))
+    d1_, d2_ = fn("atan", add(b1, b2)), fn("sin", mul(b1, b2))
+    out.append(mk("chain4", [add(d1_, d2_), mul(d1_, d2_), sub(d1_, mul(u, d2_))]))
+    e1_, e2_ = fn("tanh", add(d1_, mul(c, d2_))), fn("cos", sub(d1_, d2_))
+    out.append(mk("chain5", [add(e1_, e2_), mul(e1_, e2_)]))
+    # shared sub-expressions that depend ONLY on the control, only on the calibration, only on dt (candidates for being
+    # "constant" between calls - they are not: every call may bring another control / time step)
+    tu, tc, td = fn("sin", add(u, C(1, 4))), fn("cos", mul(c, C(3, 2))), fn("exp", mul(DT, C(1, 2)))
+    tuc = fn("tanh", mul(u, c))
+    out.append(mk("ctl-only", [add(x, mul(tu, tuc)), mul(y, add(tu, tc)), add(mul(tc, tuc), mul(td, add(tu, x)))]))
+    out.append(mk("dt-only", [add(x, td), mul(y, td), mul(td, tc)]))
     out.append(many_temporaries(13, "a"))
     out.append(many_temporaries(24, "b"))
     if tier == "quick":
-        return out[::4] + out[-16:]
+        return out[::4] + out[-21:]
     return out
+
+
+def family_sizes(tier):
+    """block-size sweep: n states (1..8), k controls, one sensor with m readings, one with 1: the blocks of the generated
+    code have n, n*n, n*k, m, m*n statements - the counts 1..64 that such shapes produce, so a mistake that depends on
+    the NUMBER of statements in a block (batching, slicing, name order from the 10th/32nd statement on) is met. Rows are dense
+    (every state depends on the shared sum of all states) and all coefficients differ, so shifted or repeated entries show."""
+    shapes = [(1, 1, 2), (2, 3, 3), (3, 2, 1), (4, 1, 3), (5, 2, 2), (6, 3, 3), (7, 5, 3), (8, 2, 3), (7, 2, 1), (6, 1, 2)]
+    if tier == "quick":
+        shapes = [(4, 1, 3), (7, 5, 3), (6, 3, 3)]
+    out = []
+    for n, k, m in shapes:
+        st = [f"q{i}" for i in range(1, n + 1)]
+        ct = [f"v{i}" for i in range(1, k + 1)]
+        tot = sum_([S(q) for q in st])
+        sn, cs = fn("sin", mul(C(1, 4), tot)), fn("cos", mul(C(1, 8), tot))
+        model = []
+        for i, q in enumerate(st):
+            nxt = S(st[(i + 1) % n])
+            model.append([q, add(S(q), mul(DT, add(mul(C(i + 1, 8), sn), add(mul(mul(C(2 * i + 1, 16), nxt), S(ct[i % k])),
+                                                                          mul(S("g"), mul(C(i + 3, 4), cs))))))])
+        rs = [[f"r{j + 1}", add(mul(C(j + 1, 2), sn), mul(S(st[j % n]), add(S("g"), C(j + 1, 4))))] for j in range(m)]
+        sensors = [["wide", rs], ["one", [["p", mul(cs, S(st[-1]))]]]]
+        snoise = [["wide", [[f"r{j + 1}", SNOISE_VALUES[j]] for j in range(m)]], ["one", [["p", 0.5]]]]
+        out.append(mkdef(f"size-n{n}k{k}m{m}", st, ct, ["g"], model, [["g", 0.625]], [[c_, PNOISE_VALUES[i % 4]] for i, c_ in enumerate(ct)],
+                         sensors, snoise, container="list" if n % 2 else "set"))
+    # "rich" rows: every row has half a dozen shared sub-expressions of its own (more temporaries than statements per block)
+    for n in ((3, 4) if tier == "quick" else (2, 3, 4, 5)):
+        st = [f"q{i}" for i in range(1, n + 1)]
+        model = []
+        for i, q in enumerate(st):
+            a_ = add(mul(S(q), S(st[(i + 1) % n])), S("v1"))
+            b_ = sub(S(q), mul(S(st[(i + 2) % n]), S("g")))
+            row = add(mul(fn("sin", a_), fn("exp", mul(C(1, 4), b_))), mul(fn("cos", a_), fn("tanh", b_)))
+            model.append([q, add(S(q), mul(DT, mul(C(i + 1, 4), row)))])
+        rs = [["r1", mul(fn("sin", mul(S(st[0]), S(st[-1]))), add(S("g"), fn("cos", mul(S(st[0]), S(st[-1])))))], ["r2", S(st[0])]]
+        out.append(mkdef(f"size-rich-n{n}", st, ["v1"], ["g"], model, [["g", 0.625]], [["v1", 0.25]],
+                         [["wide", rs]], [["wide", [["r1", 0.5], ["r2", 2.0]]]], container="set" if n % 2 else "list"))
+    return out
+
+
+def assumed(d, which="*", assumption="real"):
+    """the same definition with its symbols declared with a sympy assumption (Symbol(name, real=True) is a different object from
+    Symbol(name)); which: "*" for every symbol incl. dt, or a list of names"""
+    a = {"*": {assumption: True}} if which == "*" else {n: {assumption: True} for n in which}
+    return dict(d, assume=a, name=d["name"] + f"-{assumption}" + ("" if which == "*" else "_" + "".join(which)))
 
 
 def many_temporaries(depth, tag):
